@@ -143,6 +143,21 @@ Proof.
   - apply upd_gid_sorted; [intros; reflexivity|assumption].
 Qed.
 
+Lemma mark_done_sorted : forall t gid pid i,
+  sorted_from i t -> sorted_from i (mark_job_as_done t gid pid).
+Proof.
+  intros t gid pid i H. unfold mark_job_as_done.
+  pose proof (remove_pid_sorted t gid pid i H) as R.
+  destruct (remove_drops t gid pid); [exact R|].
+  destruct (get_job_by_gid (remove_pid_from_job t gid pid) gid) as [j|]; [|exact R].
+  destruct (negb (is_stopped (jst j)) && all_members_stopped j); [|exact R].
+  unfold sh_mark_job_as_stopped. apply upd_gid_sorted; [intros; reflexivity|exact R].
+Qed.
+
+Lemma sh_continued_sorted : forall t pid gid i,
+  sorted_from i t -> sorted_from i (fst (sh_mark_job_member_continued t pid gid)).
+Proof. intros. unfold sh_mark_job_member_continued. simpl. apply upd_gid_sorted; [intros; reflexivity|assumption]. Qed.
+
 Lemma wait_loop_sorted : forall q s gid pids lastp n c st,
   sorted_from 1 (tab s) -> sorted_from 1 (tab (w_sh (wait_loop q s gid pids lastp n c st))).
 Proof.
@@ -151,16 +166,16 @@ Proof.
   destruct e as [p v|p v|p v|p]; cbn [ev_pid is_cont];
     destruct (memZ p pids); cbn [andb negb];
     try (match goal with |- context [(n <=? ?C)%nat] => destruct (n <=? C)%nat end);
-    try apply IH; cbn [tab w_sh]; unfold mark_job_as_done;
-    try apply remove_pid_sorted; try apply mark_stopped_sorted; exact H.
+    try apply IH; cbn [tab w_sh];
+    try apply mark_done_sorted; try apply mark_stopped_sorted; try apply sh_continued_sorted; exact H.
 Qed.
 
 Lemma poll_pid_sorted : forall gid s pid,
   sorted_from 1 (tab s) -> sorted_from 1 (tab (poll_pid gid s pid)).
 Proof.
   intros gid s pid H. unfold poll_pid.
-  destruct (map_get pid (m_reap (mp s))); [cbn [tab]; apply remove_pid_sorted; exact H|].
-  destruct (map_get pid (m_kill (mp s))); [cbn [tab]; apply remove_pid_sorted; exact H|].
+  destruct (map_get pid (m_reap (mp s))); [cbn [tab]; apply mark_done_sorted; exact H|].
+  destruct (map_get pid (m_kill (mp s))); [cbn [tab]; apply mark_done_sorted; exact H|].
   destruct (memZ pid (m_stop (mp s))); [cbn [tab]; apply mark_stopped_sorted; exact H|].
   destruct (memZ pid (m_cont (mp s))); [cbn [tab]; apply mark_continued_sorted; exact H|exact H].
 Qed.
@@ -231,24 +246,6 @@ Proof.
     injection U; auto. }
   rewrite G. reflexivity.
 Qed.
-
-(** statuses of processes that are not members of the waited job are all
-    parked, in order, and the wait keeps blocking *)
-Theorem wait_parks_others : forall q s gid pids lastp n c st,
-  (forall j, In j (tab s) -> jgid j <> 0) -> (c < n)%nat ->
-  (forall e, In e q -> memZ (ev_pid e) pids = false) ->
-  wait_loop q s gid pids lastp n c st = mkwres (mksh (tab s) (handle_sigchld (mp s) q)) st true [].
-Proof.
-  induction q as [|e q IH]; intros s gid pids lastp n c st Hg Hc Hq.
-  - destruct s; reflexivity.
-  - cbn [wait_loop]. rewrite (Hq e (or_introl eq_refl)). cbn [andb].
-    assert (Hq' : forall e0, In e0 q -> memZ (ev_pid e0) pids = false) by (intros; apply Hq; simpl; auto).
-    assert (Hn : (n <=? c)%nat = false) by (apply Nat.leb_gt; exact Hc).
-    unfold handle_sigchld in *. cbn [fold_left].
-    destruct e as [p v|p v|p v|p]; cbn [ev_pid]; rewrite ?Hn; try rewrite mark_stopped_gid0 by exact Hg;
-      rewrite IH by assumption; reflexivity.
-Qed.
-
 
 (** * C. remove_pid_from_job takes out exactly the first occurrence of the pid, for every pid vector *)
 Lemma position_from_spec : forall x l i,
